@@ -20,6 +20,9 @@ COQ_STAGES = [
     ["C42/CWrapProofs.v"],
     ["C42/CWrapTable.v"],
 ]
+# built with `make` by ctx.prove once the C42 files are listed in coq/_CoqProject (dependencies, incl. the regenerated
+# Gen_CWrap.v, are then make's business); until then build_coq below compiles the stale files itself
+PROOF_MODULES = ["C42/CWrapTable.vo"]
 OBLIGATIONS = [
     "C42/P_no_escape.v", "C42/P_run_no_escape.v", "C42/P_cwrap_total_guarded.v", "C42/P_cwrap_total_refuted.v",
     "C42/P_table_no_escape.v", "C42/P_cwrap_agrees.v", "C42/P_cwrap_agrees_sem.v",
@@ -48,6 +51,14 @@ def translate(ctx):
     if rc != 0:
         ctx.broken.append({"kind": "translator", "name": "tr_cwrapper", "detail": out[-2000:]})
     return rc == 0
+
+
+def listed_in_coqproject():
+    try:
+        txt = open(os.path.join(vlib.COQ, "_CoqProject")).read()
+    except OSError:
+        return False
+    return all(v in txt for stage in COQ_STAGES for v in stage)
 
 
 def build_coq(ctx):
@@ -655,8 +666,11 @@ def explore(ctx, drv, model, cases, search=False, stats=None):
 def run(ctx):
     ctx.gate(["Base", "C42"])
     translate(ctx)
-    build_coq(ctx)
-    ctx.prove([], [o for o in OBLIGATIONS if os.path.exists(os.path.join(vlib.COQ, o))])
+    if listed_in_coqproject():
+        ctx.prove(PROOF_MODULES, OBLIGATIONS)
+    else:
+        build_coq(ctx)
+        ctx.prove([], OBLIGATIONS)
     drv, model = build(ctx)
     nseq = 220 if ctx.tier == "quick" else 4000
     nx = 60 if ctx.tier == "quick" else 1500
